@@ -1,6 +1,6 @@
 """C08 (one clause): the additive operators on commitments and commitment randomness are the linear maps
 they are named after."""
-from ..rules import linear as L
+from ..rules import linmir as L
 
 CONFIGS_QUICK = ["default"]
 CONFIGS_THOROUGH = ["default", "nopar", "r1cs"]
@@ -10,8 +10,8 @@ EXPLANATION = (
     "recomputation - is a statement about runtime values and is not decided. One clause of it is structural: "
     "additivity of commitments, shifted commitments and commitment randomness in the linear-combination machinery "
     "rests on the operator impls `+=` / `+` of kzg10::Commitment and of the three Randomness types being exactly "
-    "self + other and self + f*other on every field. This check executes those impls symbolically on the compiler's "
-    "resolved HIR (values are polynomials over the atoms self.<field>, other.<field>, f) and compares the result "
+    "self + other and self + f*other on every field. This check executes those impls symbolically on their MIR "
+    "(values are polynomials over the atoms self.<field>, other.<field>, f; delegation to a sibling impl is followed) and compares the result "
     "with that identity; an impl outside the small supported language is reported as undecided (fail closed). The "
     "two marlin_pc::Randomness `+=` impls handle an Option field case by case and are outside that language: they are "
     "listed as not decided, only their `+` wrappers (pure delegation) are checked. Determinism of non-hiding "
@@ -41,44 +41,43 @@ TABLE = [
 NOT_DECIDED = [(MR, ADDA, "plain"), (MR, ADDA, "pair")]
 
 
-def rhs_kind(h):
-    ty = h["inputs"][1] if len(h.get("inputs", [])) > 1 else ""
-    return "pair" if ty.startswith("(") else "plain"
-
-
 def run(rep, ctx, tier):
     f = ctx.facts
     found = {}
-    for h in f.hir.values():
-        if h.get("impl_trait") in (ADD, ADDA) and h.get("impl_self_adt") in (KC, KR, PR, MR) and h["name"] in ("add", "add_assign"):
-            found[(h["impl_self_adt"], h["impl_trait"], rhs_kind(h))] = h
+    for b in f.bodies.values():
+        if b.kind != "Closure" and b.impl_trait in (ADD, ADDA) and b.self_adt in (KC, KR, PR, MR) and b.name in ("add", "add_assign") \
+                and len(b.locals) > 2:
+            kind = "pair" if (b.locals[2]["ty"] or "").startswith("(") else "plain"
+            found[(b.self_adt, b.impl_trait, kind)] = b
     for adt, tr, kind, expect in TABLE:
         name = "%s:%s<%s>" % (adt.replace("::data_structures", ""), tr.rsplit("::", 1)[-1], kind)
-        h = found.get((adt, tr, kind))
-        if h is None:
+        b = found.get((adt, tr, kind))
+        if b is None:
             rep.add("R12b", name, False, "operator impl not found (fail closed)", None)
             continue
         try:
-            ex = L.Exec(h)
-            res = ex.run()
+            ex = L.analyse(f, b, kind)
         except L.Undecided as e:
-            rep.add("R12b", name, False, "outside the supported language (%s): undecided, reported fail closed" % e, h["span"])
+            rep.add("R12b", name, False, "outside the supported language (%s): undecided, reported fail closed" % e, b.span)
             continue
+        res = ex.fields
         if expect == "delegate":
-            ok = ex.delegated and not res and (adt, ADDA, kind) in found
+            tgt = found.get((adt, ADDA, kind))
+            ok = ex.delegated and not ex.own_writes and tgt is not None and ex.delegate_targets == [tgt.id]
             rep.add("R12b", name, ok, "pure delegation to the AddAssign impl with the same right-hand side" if ok else
-                    "expected `self += other; self`, found its own computation %s" % {k: L.p_fmt(v) for k, v in res.items()}, h["span"])
+                    "expected `self += other; self`, found %s" % ({k: L.p_fmt(v) for k, v in res.items()} or "no delegation"), b.span)
             continue
         want = {}
         for fld, scaled in expect.items():
             w = L.p_atom("self." + fld)
             o = L.p_atom("other." + fld)
             want[fld] = L.p_add(w, L.p_mul(L.p_atom("f"), o) if scaled else o)
-        ok = res == want and not ex.delegated
+        # an impl may compute the sum itself or hand over to the sibling impl that does: the result counts
+        ok = res == want and not ex.delegate_undecided
         rep.add("R12b", name, ok,
                 "; ".join("%s = %s" % (k, L.p_fmt(v)) for k, v in sorted(res.items())) if ok else
                 "computes %s, the identity requires %s" % ({k: L.p_fmt(v) for k, v in res.items()}, {k: L.p_fmt(v) for k, v in want.items()}),
-                h["span"])
+                b.span)
     for key in NOT_DECIDED:
         if key not in found:
             rep.add("R12b", "inventory:%s" % (key,), False, "expected operator impl %s not found" % (key,), None)
